@@ -100,6 +100,11 @@ def lib_schema(name, byte_order):
     return "\n".join(o) + "\n"
 
 
+class Rejected(RuntimeError):
+    """sbeppc rejected the library schema (a schema that uses only what C12..C16 quantify over: every dimension / length type,
+    a choice at every bit index of every set width, every primitive as required / optional type)"""
+
+
 def generate(outdir):
     """write lib_le.xml / lib_be.xml, run sbeppc on them -> include dir; raises on rejection"""
     import os
@@ -113,7 +118,7 @@ def generate(outdir):
             fh.write(lib_schema(name, bo))
         rc, out = repo.run_sbeppc(x, inc)
         if rc != 0:
-            raise RuntimeError("sbeppc rejected the library schema %s: rc=%s %s" % (name, rc, out[-2000:]))
+            raise Rejected("sbeppc rejected the library schema %s: rc=%s %s" % (name, rc, out[-2000:]))
     with open(os.path.join(inc, "lib_expect.hpp"), "w") as fh:
         fh.write("// generated from vlib/libschema.py EXPLICIT: what the *_x types state in the XML\n#pragma once\n")
         for p, (mn, mx, nl) in EXPLICIT.items():
